@@ -536,9 +536,77 @@ pub fn harnesses() -> Vec<H> {
             bound: "FlatStack<ConsecutiveIndexPairs<StringRegion>, IndexOptimized> and FlatStack<ColumnsRegion<MirrorRegion<u8>>, IndexOptimized> with 0..40 items (optionally after an earlier life of empty or mixed items and a clear) by copy, a reserve in between and a second batch by extend (first composition): own index container reports 0 used and 0 allocated bytes", kani: false },
         H { name: "into_owned_laws", props: &["C14", "C20", "C12", "C13", "C08", "C01"], nargs: 4, pre: pre_io, doms: doms_io, run: run_io, panic_ok: false,
             bound: "read items of SliceRegion<MirrorRegion<u8>>, ColumnsRegion<MirrorRegion<u8>>, Option<&[u8]>, Result<&[u8],&str>, SliceRegion<SliceRegion<..>>: 4 values x 5 prior clone_onto targets (empty/shorter/longer/equal/other variant) x region-backed and owned-borrowed; region-to-region push (indices compared with the canonical form on a twin), also into ConsecutiveIndexPairs<SliceRegion<..>> followed by further items; owned-borrowed read item of SliceRegion<OptionRegion<StringRegion>> versus &Vec (index, reads, used bytes)", kani: false },
+        H { name: "dense_owned_forms", props: &["C12", "C20", "C01"], nargs: 8, pre: pre_dof, doms: doms_dof, run: run_dof, panic_ok: false,
+            bound: "ConsecutiveIndexPairs<OwnedRegion<u8>> and ColumnsRegion<OwnedRegion<u8>>: three items (rows of 1..3 cells) with lengths over {0,1,3,9,40}, each pushed as a slice, as an owned Vec of exact capacity or as an owned Vec with 64 bytes of spare capacity; optionally after an earlier life and clear: indices 0,1,2 and every row re-read after every push", kani: false },
         H { name: "read_item_ordering", props: &["C15"], nargs: 11, pre: pre_cmp, doms: doms_cmp, run: run_cmp, panic_ok: false,
             bound: "SliceRegion<MirrorRegion<u8>>: triples of u8 vectors of length 0..2 (native: bytes over {0,1,255}), each side region-backed from two different regions or owned-borrowed: ==, !=, <, <=, >, >=, partial_cmp, cmp, max, min equal those of the Vecs; reflexive, antisymmetric, transitive", kani: false },
     ]
+}
+
+// ---------------------------------------------------------------------------------------------------- dense regions over OwnedRegion: owned vectors with their own capacities
+// `OwnedRegion::push(Vec<T>)` hands the vector itself to the storage (`PushStorage<&mut Vec<T>>`): the pushed vector's
+// allocation (longer than everything stored so far, or short with a large spare capacity) must not leak into what
+// index k reads.
+// args: l0 l1 l2 (length classes of three items), f0 f1 f2 (forms: 0 slice, 1 owned Vec of exact capacity, 2 owned Vec with 64 spare), comp (0 CIP, 1 columns), life (0/1 earlier life + clear)
+const DOF_LEN: [usize; 5] = [0, 1, 3, 9, 40];
+fn pre_dof(v: &[u64]) -> bool {
+    all_le(v, 0, 3, 4) && all_le(v, 3, 6, 2) && v[6] < 2 && v[7] < 2
+}
+fn doms_dof() -> Vec<Vec<u64>> {
+    vec![range(5), range(5), vec![0, 2, 4], range(3), range(3), vec![0, 1], range(2), range(2)]
+}
+fn run_dof(v: &[u64]) {
+    let item = |k: usize| -> Vec<u8> { (0..DOF_LEN[v[k] as usize]).map(|j| (16 * (k + 1) + j) as u8).collect() };
+    let owned = |w: &[u8], form: u64| -> Vec<u8> {
+        let mut o = Vec::with_capacity(w.len() + if form == 2 { 64 } else { 0 });
+        o.extend_from_slice(w);
+        o
+    };
+    if v[6] == 0 {
+        type R = ConsecutiveIndexPairs<OwnedRegion<u8>>;
+        let mut r = R::default();
+        if v[7] == 1 {
+            let _ = r.push(&[9u8, 9, 9, 9, 9][..]);
+            let _ = r.push(vec![8u8; 12]);
+            r.clear();
+        }
+        let mut want: Vec<Vec<u8>> = Vec::new();
+        for k in 0..3 {
+            let w = item(k);
+            let i = match v[3 + k] {
+                0 => r.push(w.as_slice()),
+                f => r.push(owned(&w, f)),
+            };
+            vassert!(i == k, "VF:dense_owned.index_not_consecutive");
+            want.push(w);
+            for (j, x) in want.iter().enumerate() {
+                vassert!(r.index(j) == x.as_slice(), "VF:dense_owned.kth_read_differs");
+            }
+        }
+    } else {
+        type C = ColumnsRegion<OwnedRegion<u8>>;
+        let mut r = C::default();
+        if v[7] == 1 {
+            let _ = r.push(vec![vec![7u8; 5], vec![6u8; 2]]);
+            r.clear();
+        }
+        // rows of 1..3 cells; the cells of row k are prefixes of item k
+        let mut want: Vec<Vec<Vec<u8>>> = Vec::new();
+        for k in 0..3 {
+            let w = item(k);
+            let row: Vec<Vec<u8>> = (0..=k).map(|c| w[..w.len().saturating_sub(c)].to_vec()).collect();
+            let i = match v[3 + k] {
+                0 => r.push(row.iter().map(|c| c.as_slice()).collect::<Vec<&[u8]>>()),
+                f => r.push(row.iter().map(|c| owned(c, f)).collect::<Vec<Vec<u8>>>()),
+            };
+            vassert!(i == k, "VF:dense_owned.index_not_consecutive");
+            want.push(row);
+            for (j, x) in want.iter().enumerate() {
+                let got = r.index(j);
+                vassert!(got.len() == x.len() && got.iter().zip(x.iter()).all(|(a, b)| a == b.as_slice()), "VF:dense_owned.kth_row_differs");
+            }
+        }
+    }
 }
 
 // ---------------------------------------------------------------------------------------------------- long random index sequences (thorough tier)
